@@ -1258,6 +1258,17 @@ def schema_contracts(specs):
                                all(isinstance(o, (ast.In, ast.NotIn)) for o in p_.ops))
                         if not ok_:
                             shared.append('%s: %s' % (fname_, ast.unparse(p_) if p_ is not None else n.id))
+        # slot protocol: the filler of a slot is taken (popped) by the ONE function whose source
+        # contains the define-slot; any other function popping it would throw the caller's filler away
+        takers = {}
+        for fname_, fdef in em.functions.items():
+            for n in ast.walk(fdef):
+                if isinstance(n, ast.Name) and isinstance(n.ctx, ast.Store) and n.id.startswith('__slot_'):
+                    takers.setdefault(n.id, set()).add(fname_)
+        multi = {k_: sorted(v_) for k_, v_ in takers.items() if len(v_) > 1}
+        static.append(('%s.slot_taken_once' % s['id'], not multi,
+                       'every `__slot_<name>` filler is popped by exactly one render function of the module',
+                       {'template': s['text'], 'slots_popped_by_several_functions': multi}))
         static.append(('%s.no_shared_mutable_constants' % s['id'], not shared,
                        'no list / dict / set built once per compiled module is handed to an expression or a '
                        'variable (each reach of a literal display builds a new object)',
